@@ -96,6 +96,7 @@ type Task struct {
 	mapCtr  uint64
 	nowCtr  uint64
 	Data    interface{} // harness slot
+	TimeFaultSteps int // steps of this task executed under a time fault (slow window or clock jump)
 }
 
 // FileState tracks an open descriptor for crash handling.
@@ -141,6 +142,10 @@ type Sim struct {
 	Counters map[string]int
 	slow map[int][2]int64 // task -> (factor, untilStep)
 	eventCount   int
+	// TimeFaultEvents counts executed steps that advanced the clock
+	// abnormally (slow window or clock jump), by any task: the clock is
+	// global, so every call in flight meanwhile has experienced the delay.
+	TimeFaultEvents int
 	schedNameCtr uint64
 	CallerPkg string
 }
@@ -381,16 +386,22 @@ func Enter(c Call) (be Backend, t *Task, ok bool) {
 	if sl, ok := s.slow[t.ID]; ok {
 		if int64(t.Steps) <= sl[1] {
 			lat *= sl[0]
+			t.TimeFaultSteps++
+			s.TimeFaultEvents++
 		} else {
 			delete(s.slow, t.ID)
 		}
 	}
 	if f := s.faultAt(t, FaultSlow); f != nil {
 		s.slow[t.ID] = [2]int64{f.Arg, int64(t.Steps) + f.Arg2}
+		t.TimeFaultSteps++
+		s.TimeFaultEvents++
 		s.Counters["fault.slow"]++
 	}
 	if f := s.faultAt(t, FaultClockJump); f != nil {
 		s.Now += f.Arg
+		t.TimeFaultSteps++
+		s.TimeFaultEvents++
 		s.Counters["fault.clock-jump"]++
 	}
 	s.Now += lat
